@@ -7,6 +7,13 @@
 //!   Alu{kind, args}    add / sub / mul / div / mul_add over the atoms available at that point
 //!   Coeffs{target,ctl} decompose_ext_to_base_coeffs (hint + recompose row, plain or coeff-ctl)
 //!   Bits               decompose_to_bits(PB, 3)
+//!   PermMerkle{new_start,bit,index,out}
+//!                      MERKLE-mode row (arity 2): new_start = leaf row with the four limbs
+//!                      [P0,P1,K,K2] given explicitly; otherwise chained after the previous Merkle row,
+//!                      sibling by private data; direction bit = constant 0/1; `index` = the row's
+//!                      `mmcs_index_sum` is not exposed / exposed through its own public input I(p) /
+//!                      through the public input IS shared by all such rows; `out` = both rate
+//!                      outputs exposed
 //! Atoms: P0 P1 (public), K (const), H (raw hint output), O(p,l) (perm p rate output l),
 //! R(i) (i-th ALU result), C(i) (coefficient i), B(i) (bit i).
 //! Every interleaving of the statements that respects data dependencies is generated, so the
@@ -18,6 +25,9 @@
 //! `poseidon_preprocess_for_prover` / `recompose_preprocess_for_op` replaced the ctl flags by
 //! signed multiplicities from `ext_reads` / `dup_npo_outputs` / `hint_output_wids`):
 //!   p2.in   idx, -(in_ctl)·(1-merkle_path)       p2.out  idx, out_ctl (signed)
+//!   p2.mmcs idx, -(mmcs_merkle_flag(row)·new_start(CYCLIC next row))  — evaluated on the FINAL
+//!           preprocessed matrix of the Poseidon2 AIR (real rows + padding rows, height 2^k), the
+//!           way the AIR's "MMCS accumulator send" is declared
 //!   rc.out  idx, out_mult (signed)                rcc.coeff idx, coeff_mult (>= 0)
 //! Clause (2), second opinion: honest run (inputs solved natively with the repository's
 //! permutation) -> real prover with p3's `check_lookups` switched on -> real verifier.
@@ -28,9 +38,9 @@ use p3_air::BaseAir;
 use p3_batch_stark::ProverData;
 use p3_circuit::builder::NonPrimitiveOpParams;
 use p3_circuit::ops::{
-    AluOpKind, HintExecutor, NpoTypeId, Poseidon2Config, Poseidon2PermCall, generate_poseidon2_trace, generate_recompose_trace,
+    AluOpKind, HintExecutor, NpoTypeId, Poseidon2Config, Poseidon2PermCall, Poseidon2PermPrivateData, generate_poseidon2_trace, generate_recompose_trace,
 };
-use p3_circuit::{Circuit, CircuitBuilder, CircuitError, ExprId, WitnessId};
+use p3_circuit::{Circuit, CircuitBuilder, CircuitError, ExprId, NonPrimitiveOpId, NpoPrivateData, WitnessId};
 use p3_circuit_prover::batch_stark_prover::{poseidon2_air_builders, recompose_air_builders, recompose_table_provers};
 use p3_circuit_prover::common::{CircuitTableAir, NpoPreprocessor, get_airs_and_degrees_with_prep};
 use p3_circuit_prover::config::KoalaBearConfig;
@@ -71,6 +81,18 @@ pub enum Atom {
     B(u8),
     /// output of the i-th explicit recomposition statement
     X(u8),
+    /// own public input holding the exposed `mmcs_index_sum` of perm call `p` (a Merkle row)
+    I(u8),
+    /// the public input shared by all Merkle rows whose index is exposed as `Shared`
+    IS,
+}
+
+/// How a Merkle row exposes its index accumulator.
+#[derive(Clone, Copy, Debug, PartialEq, Eq, Hash, PartialOrd, Ord, Serialize, Deserialize)]
+pub enum Expose {
+    No,
+    Own,
+    Shared,
 }
 
 /// Coefficients packed by an explicit recomposition statement: four base-field public inputs
@@ -101,6 +123,8 @@ pub enum Stmt {
     Bits,
     /// recompose_base_coeffs_to_ext (plain table) / .._with_coeff_lookups (recompose/coeff table)
     Recomp { src: CoeffSrc, ctl: bool },
+    /// Merkle-mode Poseidon2 row (see the module documentation)
+    PermMerkle { new_start: bool, bit: bool, index: Expose, out: bool },
 }
 
 #[derive(Clone, Debug, PartialEq, Eq, Hash, Serialize, Deserialize)]
@@ -121,6 +145,8 @@ impl Shape {
             Atom::C(i) => format!("c{i}"),
             Atom::B(i) => format!("b{i}"),
             Atom::X(i) => format!("x{i}"),
+            Atom::I(p) => format!("i{p}"),
+            Atom::IS => "is".into(),
         };
         let (mut np, mut na, mut nx) = (0, 0, 0);
         let mut s = vec![];
@@ -141,6 +167,17 @@ impl Shape {
                 }
                 Stmt::Coeffs { target, ctl } => s.push(format!("c=coeffs{}({})", if *ctl { "_ctl" } else { "" }, a(target))),
                 Stmt::Bits => s.push("b=bits(pb,3)".into()),
+                Stmt::PermMerkle { new_start, bit, index, out } => {
+                    let lhs = if *out { format!("(o{np}.0,o{np}.1)=") } else { String::new() };
+                    let idx = match index {
+                        Expose::No => String::new(),
+                        Expose::Own => format!(",index=i{np}"),
+                        Expose::Shared => ",index=is".into(),
+                    };
+                    let ins = if *new_start { "leaf(p0,p1,k,k2)" } else { "chained,sibling=private" };
+                    s.push(format!("{lhs}merkle({ins},bit={}{idx})", *bit as u8));
+                    np += 1;
+                }
                 Stmt::Recomp { src, ctl } => {
                     s.push(format!("x{nx}=recompose{}({})", if *ctl { "_ctl" } else { "" }, match src { CoeffSrc::Q => "q0..q3", CoeffSrc::Q2 => "q4..q7", CoeffSrc::C => "c0..c3" }));
                     nx += 1;
@@ -158,7 +195,7 @@ impl Shape {
             Stmt::PermChained { in0 } => in0.as_ref().is_some_and(&f),
             Stmt::Alu { args, .. } => args.iter().any(&f),
             Stmt::Coeffs { target, .. } => f(target),
-            Stmt::Bits | Stmt::Recomp { .. } => false,
+            Stmt::Bits | Stmt::Recomp { .. } | Stmt::PermMerkle { .. } => false,
         }) || self.connects.iter().any(|(x, y)| f(x) || f(y))
     }
     pub fn uses_hint(&self) -> bool {
@@ -194,6 +231,28 @@ pub struct Family {
     pub q2: bool,
     pub min_perm: u8,
     pub min_recomp: u8,
+    /// Merkle families: the Poseidon2 rows of the shape (`min_perm..=max_perm` of them) are drawn
+    /// from {sponge new_start row, Merkle leaf row, Merkle chained row} instead of the sponge forms
+    pub mk: Option<Mk>,
+}
+
+#[derive(Clone, Debug, Serialize)]
+pub struct Mk {
+    /// sponge `new_start` rows may stand between / before / after the Merkle chains
+    pub sponge_rows: bool,
+    /// direction bits enumerated per Merkle row
+    pub bits: Vec<bool>,
+    /// index exposure forms enumerated per Merkle row
+    pub index: Vec<Expose>,
+    /// output exposure enumerated per Merkle row
+    pub outs: Vec<bool>,
+}
+
+impl Family {
+    /// all bounds zero / off (the Merkle families switch on what they use)
+    fn base(name: &'static str) -> Family {
+        Family { name, max_perm: 0, chained: false, min_alu: 0, max_alu: 0, kinds: vec![], wide_operands: false, fed_inputs: false, coeffs: false, bits: false, max_conn: 0, max_recomp: 0, max_coeff_stmts: 0, q2: false, min_perm: 0, min_recomp: 0, mk: None }
+    }
 }
 
 pub fn families(quick: bool) -> Vec<Family> {
@@ -202,31 +261,44 @@ pub fn families(quick: bool) -> Vec<Family> {
     let bin = vec![Add, Sub, Mul, Div];
     if quick {
         vec![
-            Family { name: "npo-1perm-1alu-1conn", max_perm: 1, chained: false, min_alu: 1, max_alu: 1, kinds: all.clone(), wide_operands: true, fed_inputs: true, coeffs: false, bits: false, max_conn: 1, max_recomp: 0, max_coeff_stmts: 1, q2: false, min_perm: 1, min_recomp: 0 },
-            Family { name: "npo-2perm-1alu-submul-1conn", max_perm: 2, chained: true, min_alu: 1, max_alu: 1, kinds: vec![Sub, Mul], wide_operands: false, fed_inputs: false, coeffs: false, bits: false, max_conn: 1, max_recomp: 0, max_coeff_stmts: 1, q2: false, min_perm: 1, min_recomp: 0 },
-            Family { name: "npo-1perm-coeffs-1alu-submul-1conn", max_perm: 1, chained: false, min_alu: 1, max_alu: 1, kinds: vec![Sub, Mul], wide_operands: false, fed_inputs: false, coeffs: true, bits: false, max_conn: 1, max_recomp: 0, max_coeff_stmts: 1, q2: false, min_perm: 1, min_recomp: 0 },
-            Family { name: "npo-2recomp-0or1perm-le1alu-1conn", max_perm: 1, chained: false, min_alu: 0, max_alu: 1, kinds: vec![Sub, Mul], wide_operands: false, fed_inputs: false, coeffs: false, bits: false, max_conn: 1, max_recomp: 2, max_coeff_stmts: 2, q2: false, min_perm: 0, min_recomp: 1 },
-            Family { name: "npo-coeffs+recomp-0or1perm-0alu-1conn", max_perm: 1, chained: false, min_alu: 0, max_alu: 0, kinds: vec![], wide_operands: false, fed_inputs: false, coeffs: true, bits: false, max_conn: 1, max_recomp: 1, max_coeff_stmts: 2, q2: false, min_perm: 0, min_recomp: 1 },
-            Family { name: "npo-1perm-bits-1alu-0conn", max_perm: 1, chained: false, min_alu: 1, max_alu: 1, kinds: vec![Sub, Mul], wide_operands: false, fed_inputs: false, coeffs: false, bits: true, max_conn: 0, max_recomp: 0, max_coeff_stmts: 1, q2: false, min_perm: 1, min_recomp: 0 },
+            Family { name: "npo-1perm-1alu-1conn", max_perm: 1, chained: false, min_alu: 1, max_alu: 1, kinds: all.clone(), wide_operands: true, fed_inputs: true, coeffs: false, bits: false, max_conn: 1, max_recomp: 0, max_coeff_stmts: 1, q2: false, min_perm: 1, min_recomp: 0, mk: None },
+            Family { name: "npo-2perm-1alu-submul-1conn", max_perm: 2, chained: true, min_alu: 1, max_alu: 1, kinds: vec![Sub, Mul], wide_operands: false, fed_inputs: false, coeffs: false, bits: false, max_conn: 1, max_recomp: 0, max_coeff_stmts: 1, q2: false, min_perm: 1, min_recomp: 0, mk: None },
+            Family { name: "npo-1perm-coeffs-1alu-submul-1conn", max_perm: 1, chained: false, min_alu: 1, max_alu: 1, kinds: vec![Sub, Mul], wide_operands: false, fed_inputs: false, coeffs: true, bits: false, max_conn: 1, max_recomp: 0, max_coeff_stmts: 1, q2: false, min_perm: 1, min_recomp: 0, mk: None },
+            Family { name: "npo-2recomp-0or1perm-le1alu-1conn", max_perm: 1, chained: false, min_alu: 0, max_alu: 1, kinds: vec![Sub, Mul], wide_operands: false, fed_inputs: false, coeffs: false, bits: false, max_conn: 1, max_recomp: 2, max_coeff_stmts: 2, q2: false, min_perm: 0, min_recomp: 1, mk: None },
+            Family { name: "npo-coeffs+recomp-0or1perm-0alu-1conn", max_perm: 1, chained: false, min_alu: 0, max_alu: 0, kinds: vec![], wide_operands: false, fed_inputs: false, coeffs: true, bits: false, max_conn: 1, max_recomp: 1, max_coeff_stmts: 2, q2: false, min_perm: 0, min_recomp: 1, mk: None },
+            Family { name: "npo-1perm-bits-1alu-0conn", max_perm: 1, chained: false, min_alu: 1, max_alu: 1, kinds: vec![Sub, Mul], wide_operands: false, fed_inputs: false, coeffs: false, bits: true, max_conn: 0, max_recomp: 0, max_coeff_stmts: 1, q2: false, min_perm: 1, min_recomp: 0, mk: None },
+            // Merkle-mode rows: Poseidon2 tables of exactly 1, 2, 3 (padded) and 4 rows
+            Family { name: "npo-merkle-le4rows-0alu-0conn", max_perm: 4, min_perm: 1, mk: Some(Mk { sponge_rows: true, bits: vec![true], index: vec![Expose::No, Expose::Own, Expose::Shared], outs: vec![false] }), ..Family::base("") },
+            Family { name: "npo-merkle-le3rows-outs-0alu-0conn", max_perm: 3, min_perm: 1, mk: Some(Mk { sponge_rows: true, bits: vec![true], index: vec![Expose::No, Expose::Own], outs: vec![false, true] }), ..Family::base("") },
+            Family { name: "npo-merkle-le2rows-bits-0alu-1conn", max_perm: 2, min_perm: 1, max_conn: 1, mk: Some(Mk { sponge_rows: true, bits: vec![false, true], index: vec![Expose::No, Expose::Own, Expose::Shared], outs: vec![false, true] }), ..Family::base("") },
+            Family { name: "npo-merkle-le2rows-1alu-addmul-0conn", max_perm: 2, min_perm: 1, min_alu: 1, max_alu: 1, kinds: vec![Add, Mul], mk: Some(Mk { sponge_rows: true, bits: vec![true], index: vec![Expose::No, Expose::Own, Expose::Shared], outs: vec![false] }), ..Family::base("") },
             // the largest family last: on a slow machine it is the one that gets cut
-            Family { name: "npo-1perm-2alu-submuldiv-1conn", max_perm: 1, chained: false, min_alu: 2, max_alu: 2, kinds: vec![Sub, Mul, Div], wide_operands: false, fed_inputs: false, coeffs: false, bits: false, max_conn: 1, max_recomp: 0, max_coeff_stmts: 1, q2: false, min_perm: 1, min_recomp: 0 },
+            Family { name: "npo-1perm-2alu-submuldiv-1conn", max_perm: 1, chained: false, min_alu: 2, max_alu: 2, kinds: vec![Sub, Mul, Div], wide_operands: false, fed_inputs: false, coeffs: false, bits: false, max_conn: 1, max_recomp: 0, max_coeff_stmts: 1, q2: false, min_perm: 1, min_recomp: 0, mk: None },
         ]
     } else {
         let sd = vec![Sub, Mul, Div];
+        let ix = vec![Expose::No, Expose::Own, Expose::Shared];
         vec![
-            Family { name: "npo-1perm-1alu-2conn", max_perm: 1, chained: false, min_alu: 1, max_alu: 1, kinds: all.clone(), wide_operands: true, fed_inputs: true, coeffs: false, bits: false, max_conn: 2, max_recomp: 0, max_coeff_stmts: 1, q2: false, min_perm: 1, min_recomp: 0 },
-            Family { name: "npo-1perm-2alu-2conn", max_perm: 1, chained: false, min_alu: 2, max_alu: 2, kinds: bin.clone(), wide_operands: false, fed_inputs: true, coeffs: false, bits: false, max_conn: 2, max_recomp: 0, max_coeff_stmts: 1, q2: false, min_perm: 1, min_recomp: 0 },
-            Family { name: "npo-1perm-2alu-all-1conn", max_perm: 1, chained: false, min_alu: 2, max_alu: 2, kinds: all.clone(), wide_operands: true, fed_inputs: true, coeffs: false, bits: false, max_conn: 1, max_recomp: 0, max_coeff_stmts: 1, q2: false, min_perm: 1, min_recomp: 0 },
-            Family { name: "npo-1perm-3alu-1conn", max_perm: 1, chained: false, min_alu: 3, max_alu: 3, kinds: sd.clone(), wide_operands: false, fed_inputs: false, coeffs: false, bits: false, max_conn: 1, max_recomp: 0, max_coeff_stmts: 1, q2: false, min_perm: 1, min_recomp: 0 },
-            Family { name: "npo-2perm-1alu-2conn", max_perm: 2, chained: true, min_alu: 1, max_alu: 1, kinds: all.clone(), wide_operands: false, fed_inputs: true, coeffs: false, bits: false, max_conn: 2, max_recomp: 0, max_coeff_stmts: 1, q2: false, min_perm: 1, min_recomp: 0 },
-            Family { name: "npo-2perm-2alu-1conn", max_perm: 2, chained: true, min_alu: 2, max_alu: 2, kinds: bin.clone(), wide_operands: false, fed_inputs: false, coeffs: false, bits: false, max_conn: 1, max_recomp: 0, max_coeff_stmts: 1, q2: false, min_perm: 1, min_recomp: 0 },
-            Family { name: "npo-1perm-coeffs-1alu-2conn", max_perm: 1, chained: false, min_alu: 1, max_alu: 1, kinds: all, wide_operands: false, fed_inputs: false, coeffs: true, bits: false, max_conn: 2, max_recomp: 0, max_coeff_stmts: 1, q2: false, min_perm: 1, min_recomp: 0 },
-            Family { name: "npo-1perm-coeffs-2alu-1conn", max_perm: 1, chained: false, min_alu: 2, max_alu: 2, kinds: sd, wide_operands: false, fed_inputs: false, coeffs: true, bits: false, max_conn: 1, max_recomp: 0, max_coeff_stmts: 1, q2: false, min_perm: 1, min_recomp: 0 },
-            Family { name: "npo-1perm-bits-2alu-1conn", max_perm: 1, chained: false, min_alu: 1, max_alu: 2, kinds: vec![Sub, Mul], wide_operands: false, fed_inputs: false, coeffs: false, bits: true, max_conn: 1, max_recomp: 0, max_coeff_stmts: 1, q2: false, min_perm: 1, min_recomp: 0 },
-            Family { name: "npo-2recomp-q2-0or1perm-le1alu-2conn", max_perm: 1, chained: false, min_alu: 0, max_alu: 1, kinds: vec![Add, Sub, Mul, Div], wide_operands: false, fed_inputs: false, coeffs: true, bits: false, max_conn: 2, max_recomp: 2, max_coeff_stmts: 2, q2: true, min_perm: 0, min_recomp: 1 },
-            Family { name: "npo-3coeffstmts-0or1perm-le1alu-1conn", max_perm: 1, chained: false, min_alu: 0, max_alu: 1, kinds: vec![Sub, Mul], wide_operands: false, fed_inputs: false, coeffs: true, bits: false, max_conn: 1, max_recomp: 2, max_coeff_stmts: 3, q2: false, min_perm: 0, min_recomp: 1 },
-            Family { name: "npo-2recomp-0or1perm-2alu-1conn", max_perm: 1, chained: false, min_alu: 2, max_alu: 2, kinds: vec![Sub, Mul], wide_operands: false, fed_inputs: false, coeffs: false, bits: false, max_conn: 1, max_recomp: 2, max_coeff_stmts: 2, q2: false, min_perm: 0, min_recomp: 2 },
-            Family { name: "npo-1perm-coeffs-bits-1alu-1conn", max_perm: 1, chained: false, min_alu: 1, max_alu: 1, kinds: vec![Sub, Mul], wide_operands: false, fed_inputs: false, coeffs: true, bits: true, max_conn: 1, max_recomp: 0, max_coeff_stmts: 1, q2: false, min_perm: 1, min_recomp: 0 },
+            // Merkle-mode rows first (small families; never the ones that get cut)
+            Family { name: "npo-merkle-le4rows-bits-0alu-0conn", max_perm: 4, min_perm: 1, mk: Some(Mk { sponge_rows: true, bits: vec![false, true], index: ix.clone(), outs: vec![false] }), ..Family::base("") },
+            Family { name: "npo-merkle-le4rows-outs-0alu-0conn", max_perm: 4, min_perm: 1, mk: Some(Mk { sponge_rows: true, bits: vec![true], index: ix.clone(), outs: vec![false, true] }), ..Family::base("") },
+            Family { name: "npo-merkle-le3rows-outs-0alu-1conn", max_perm: 3, min_perm: 1, max_conn: 1, mk: Some(Mk { sponge_rows: true, bits: vec![true], index: ix.clone(), outs: vec![false, true] }), ..Family::base("") },
+            Family { name: "npo-merkle-le3rows-0alu-2conn", max_perm: 3, min_perm: 1, max_conn: 2, mk: Some(Mk { sponge_rows: true, bits: vec![true], index: ix.clone(), outs: vec![false] }), ..Family::base("") },
+            Family { name: "npo-merkle-le2rows-1alu-1conn", max_perm: 2, min_perm: 1, min_alu: 1, max_alu: 1, kinds: bin.clone(), max_conn: 1, mk: Some(Mk { sponge_rows: true, bits: vec![true], index: ix.clone(), outs: vec![false] }), ..Family::base("") },
+            Family { name: "npo-merkle-le2rows-bits-outs-le1alu-addmul-0conn", max_perm: 2, min_perm: 1, min_alu: 0, max_alu: 1, kinds: vec![Add, Mul], mk: Some(Mk { sponge_rows: true, bits: vec![false, true], index: ix, outs: vec![false, true] }), ..Family::base("") },
+            Family { name: "npo-1perm-1alu-2conn", max_perm: 1, chained: false, min_alu: 1, max_alu: 1, kinds: all.clone(), wide_operands: true, fed_inputs: true, coeffs: false, bits: false, max_conn: 2, max_recomp: 0, max_coeff_stmts: 1, q2: false, min_perm: 1, min_recomp: 0, mk: None },
+            Family { name: "npo-1perm-2alu-2conn", max_perm: 1, chained: false, min_alu: 2, max_alu: 2, kinds: bin.clone(), wide_operands: false, fed_inputs: true, coeffs: false, bits: false, max_conn: 2, max_recomp: 0, max_coeff_stmts: 1, q2: false, min_perm: 1, min_recomp: 0, mk: None },
+            Family { name: "npo-1perm-2alu-all-1conn", max_perm: 1, chained: false, min_alu: 2, max_alu: 2, kinds: all.clone(), wide_operands: true, fed_inputs: true, coeffs: false, bits: false, max_conn: 1, max_recomp: 0, max_coeff_stmts: 1, q2: false, min_perm: 1, min_recomp: 0, mk: None },
+            Family { name: "npo-1perm-3alu-1conn", max_perm: 1, chained: false, min_alu: 3, max_alu: 3, kinds: sd.clone(), wide_operands: false, fed_inputs: false, coeffs: false, bits: false, max_conn: 1, max_recomp: 0, max_coeff_stmts: 1, q2: false, min_perm: 1, min_recomp: 0, mk: None },
+            Family { name: "npo-2perm-1alu-2conn", max_perm: 2, chained: true, min_alu: 1, max_alu: 1, kinds: all.clone(), wide_operands: false, fed_inputs: true, coeffs: false, bits: false, max_conn: 2, max_recomp: 0, max_coeff_stmts: 1, q2: false, min_perm: 1, min_recomp: 0, mk: None },
+            Family { name: "npo-2perm-2alu-1conn", max_perm: 2, chained: true, min_alu: 2, max_alu: 2, kinds: bin.clone(), wide_operands: false, fed_inputs: false, coeffs: false, bits: false, max_conn: 1, max_recomp: 0, max_coeff_stmts: 1, q2: false, min_perm: 1, min_recomp: 0, mk: None },
+            Family { name: "npo-1perm-coeffs-1alu-2conn", max_perm: 1, chained: false, min_alu: 1, max_alu: 1, kinds: all, wide_operands: false, fed_inputs: false, coeffs: true, bits: false, max_conn: 2, max_recomp: 0, max_coeff_stmts: 1, q2: false, min_perm: 1, min_recomp: 0, mk: None },
+            Family { name: "npo-1perm-coeffs-2alu-1conn", max_perm: 1, chained: false, min_alu: 2, max_alu: 2, kinds: sd, wide_operands: false, fed_inputs: false, coeffs: true, bits: false, max_conn: 1, max_recomp: 0, max_coeff_stmts: 1, q2: false, min_perm: 1, min_recomp: 0, mk: None },
+            Family { name: "npo-1perm-bits-2alu-1conn", max_perm: 1, chained: false, min_alu: 1, max_alu: 2, kinds: vec![Sub, Mul], wide_operands: false, fed_inputs: false, coeffs: false, bits: true, max_conn: 1, max_recomp: 0, max_coeff_stmts: 1, q2: false, min_perm: 1, min_recomp: 0, mk: None },
+            Family { name: "npo-2recomp-q2-0or1perm-le1alu-2conn", max_perm: 1, chained: false, min_alu: 0, max_alu: 1, kinds: vec![Add, Sub, Mul, Div], wide_operands: false, fed_inputs: false, coeffs: true, bits: false, max_conn: 2, max_recomp: 2, max_coeff_stmts: 2, q2: true, min_perm: 0, min_recomp: 1, mk: None },
+            Family { name: "npo-3coeffstmts-0or1perm-le1alu-1conn", max_perm: 1, chained: false, min_alu: 0, max_alu: 1, kinds: vec![Sub, Mul], wide_operands: false, fed_inputs: false, coeffs: true, bits: false, max_conn: 1, max_recomp: 2, max_coeff_stmts: 3, q2: false, min_perm: 0, min_recomp: 1, mk: None },
+            Family { name: "npo-2recomp-0or1perm-2alu-1conn", max_perm: 1, chained: false, min_alu: 2, max_alu: 2, kinds: vec![Sub, Mul], wide_operands: false, fed_inputs: false, coeffs: false, bits: false, max_conn: 1, max_recomp: 2, max_coeff_stmts: 2, q2: false, min_perm: 0, min_recomp: 2, mk: None },
+            Family { name: "npo-1perm-coeffs-bits-1alu-1conn", max_perm: 1, chained: false, min_alu: 1, max_alu: 1, kinds: vec![Sub, Mul], wide_operands: false, fed_inputs: false, coeffs: true, bits: true, max_conn: 1, max_recomp: 0, max_coeff_stmts: 1, q2: false, min_perm: 1, min_recomp: 0, mk: None },
         ]
     }
 }
@@ -239,6 +311,13 @@ struct GenState {
     coeffs: bool,
     bits: bool,
     recomps: u8,
+    /// the last Poseidon2 row emitted so far is a Merkle row (a chained Merkle row may follow)
+    last_merkle: bool,
+    /// perm calls whose rate outputs are not exposed
+    hidden_outs: Vec<u8>,
+    /// perm calls exposing their index through an own public input
+    idx_own: Vec<u8>,
+    idx_shared: bool,
 }
 
 impl GenState {
@@ -248,10 +327,19 @@ impl GenState {
             v.push(Atom::K);
         }
         for p in 0..self.perms {
+            if self.hidden_outs.contains(&p) {
+                continue;
+            }
             v.push(Atom::O(p, 0));
             if f.wide_operands {
                 v.push(Atom::O(p, 1));
             }
+        }
+        for p in &self.idx_own {
+            v.push(Atom::I(*p));
+        }
+        if self.idx_shared {
+            v.push(Atom::IS);
         }
         for i in 0..self.alus {
             v.push(Atom::R(i));
@@ -275,8 +363,43 @@ pub fn sequences(f: &Family, out: &mut Vec<Vec<Stmt>>) {
         if st.perms >= f.min_perm && st.alus >= f.min_alu && st.recomps >= f.min_recomp {
             out.push(st.stmts.clone());
         }
-        // perm
-        if st.perms < f.max_perm {
+        // Merkle families: the next Poseidon2 row is a sponge new_start row, a Merkle leaf row, or
+        // (directly after a Merkle row of the table) a chained Merkle row
+        if let Some(mk) = &f.mk {
+            if st.perms < f.max_perm {
+                if mk.sponge_rows {
+                    let mut n = st.clone();
+                    n.stmts.push(Stmt::Perm { in0: Atom::P0 });
+                    n.perms += 1;
+                    n.last_merkle = false;
+                    rec(f, &n, out);
+                }
+                for new_start in [true, false] {
+                    if !new_start && !st.last_merkle {
+                        continue;
+                    }
+                    for bit in &mk.bits {
+                        for index in &mk.index {
+                            for o in &mk.outs {
+                                let mut n = st.clone();
+                                n.stmts.push(Stmt::PermMerkle { new_start, bit: *bit, index: *index, out: *o });
+                                if !*o {
+                                    n.hidden_outs.push(st.perms);
+                                }
+                                match index {
+                                    Expose::No => {}
+                                    Expose::Own => n.idx_own.push(st.perms),
+                                    Expose::Shared => n.idx_shared = true,
+                                }
+                                n.perms += 1;
+                                n.last_merkle = true;
+                                rec(f, &n, out);
+                            }
+                        }
+                    }
+                }
+            }
+        } else if st.perms < f.max_perm {
             let mut ins = vec![Atom::P0];
             if f.fed_inputs {
                 ins.push(Atom::H);
@@ -357,7 +480,7 @@ pub fn sequences(f: &Family, out: &mut Vec<Vec<Stmt>>) {
         }
         if f.coeffs && !st.coeffs && coeff_stmts < f.max_coeff_stmts {
             let mut targets = vec![Atom::P0];
-            if st.perms > 0 {
+            if st.perms > 0 && !st.hidden_outs.contains(&0) {
                 targets.push(Atom::O(0, 0));
             }
             if st.alus > 0 {
@@ -405,6 +528,21 @@ pub fn connect_sets(f: &Family, stmts: &[Stmt]) -> Vec<Vec<(Atom, Atom)>> {
             }
             Stmt::Coeffs { .. } => e.push(Atom::C(0)),
             Stmt::Bits => e.push(Atom::B(0)),
+            Stmt::PermMerkle { index, out, .. } => {
+                if *out {
+                    e.push(Atom::O(np, 0));
+                }
+                match index {
+                    Expose::No => {}
+                    Expose::Own => e.push(Atom::I(np)),
+                    Expose::Shared => {
+                        if !e.contains(&Atom::IS) {
+                            e.push(Atom::IS);
+                        }
+                    }
+                }
+                np += 1;
+            }
         }
     }
     let mut pairs = vec![];
@@ -456,6 +594,95 @@ fn perm_native(limbs: [Kb4; 4]) -> [Kb4; 4] {
     core::array::from_fn(|i| Kb4::from_basis_coefficients_slice(&out[i * 4..(i + 1) * 4]).unwrap())
 }
 
+/// sibling digest supplied as private data to the chained Merkle row that is perm call `p`
+fn sibling(p: u8) -> [Kb4; 2] {
+    let s = 100 + 10 * p as u64;
+    [ext([s, s + 1, s + 2, s + 3]), ext([s + 4, s + 5, s + 6, s + 7])]
+}
+
+/// Honest values of the Merkle index accumulators, per perm call (table row): what the Poseidon2
+/// trace generator writes into `mmcs_index_sum` — a chain start (leaf row, sponge row) holds the
+/// value of its own exposed cell (0 here: the index publics of leaf rows are set to 0), a chained
+/// Merkle row holds 2·previous + bit. Third value: all rows exposing through IS agree.
+pub fn merkle_indices(stmts: &[Stmt]) -> (Vec<u64>, Option<u64>, bool) {
+    let mut acc = vec![];
+    let (mut shared, mut ok) = (None, true);
+    let mut prev = 0u64;
+    for s in stmts {
+        match s {
+            Stmt::Perm { .. } | Stmt::PermChained { .. } => {
+                prev = 0;
+                acc.push(0);
+            }
+            Stmt::PermMerkle { new_start, bit, index, .. } => {
+                prev = if *new_start { 0 } else { 2 * prev + *bit as u64 };
+                acc.push(prev);
+                if *index == Expose::Shared {
+                    match shared {
+                        None => shared = Some(prev),
+                        Some(v) => ok &= v == prev,
+                    }
+                }
+            }
+            _ => {}
+        }
+    }
+    (acc, shared, ok)
+}
+
+/// Shape class of a shape with Merkle rows: table geometry and where the index reads fire.
+/// rows=<real>of<padded height> | first / last row kind (S sponge, C chained sponge, L Merkle leaf,
+/// M chained Merkle; +i index exposed) | for every exposing row the kind of its CYCLIC next row
+/// (start = a real new_start row, chained = no read, pad = first padding row, wrap = row 0).
+pub fn merkle_class(stmts: &[Stmt]) -> Option<String> {
+    let rows: Vec<(char, bool)> = stmts
+        .iter()
+        .filter_map(|s| match s {
+            Stmt::Perm { .. } => Some(('S', false)),
+            Stmt::PermChained { .. } => Some(('C', false)),
+            Stmt::PermMerkle { new_start, index, .. } => Some((if *new_start { 'L' } else { 'M' }, *index != Expose::No)),
+            _ => None,
+        })
+        .collect();
+    if !stmts.iter().any(|s| matches!(s, Stmt::PermMerkle { .. })) {
+        return None;
+    }
+    let n = rows.len();
+    let h = n.next_power_of_two();
+    let kind = |r: &(char, bool)| format!("{}{}", r.0, if r.1 { "+i" } else { "" });
+    let mut nexts: BTreeSet<&str> = BTreeSet::new();
+    for (i, r) in rows.iter().enumerate() {
+        if r.1 {
+            nexts.insert(if i + 1 < n {
+                if matches!(rows[i + 1].0, 'S' | 'L') { "start" } else { "chained" }
+            } else if h > n {
+                "pad"
+            } else {
+                "wrap"
+            });
+        }
+    }
+    Some(format!("rows={n}of{h}|first={}|last={}|index_next={}", kind(&rows[0]), kind(&rows[n - 1]), if nexts.is_empty() { "-".to_string() } else { nexts.into_iter().collect::<Vec<_>>().join("+") }))
+}
+
+/// Row pattern of the Poseidon2 table (kinds, index exposure form, output exposure; no bits): the
+/// part of the proof-selection signature that keeps row POSITIONS, which the port census drops.
+pub fn merkle_pattern(stmts: &[Stmt]) -> Option<String> {
+    merkle_class(stmts)?;
+    Some(
+        stmts
+            .iter()
+            .filter_map(|s| match s {
+                Stmt::Perm { .. } => Some("S".to_string()),
+                Stmt::PermChained { .. } => Some("C".to_string()),
+                Stmt::PermMerkle { new_start, index, out, .. } => Some(format!("{}{}{}", if *new_start { 'L' } else { 'M' }, match index { Expose::No => "", Expose::Own => "i", Expose::Shared => "s" }, if *out { "o" } else { "" })),
+                _ => None,
+            })
+            .collect::<Vec<_>>()
+            .join("."),
+    )
+}
+
 #[derive(Clone, Debug)]
 pub struct Honest {
     pub p0: Kb4,
@@ -472,6 +699,14 @@ fn eval(shape: &Shape, free: &Honest) -> Option<BTreeMap<Atom, Kb4>> {
     v.insert(Atom::H, free.h);
     let (mut np, mut na, mut nx) = (0u8, 0u8, 0u8);
     let mut last_full: Option<[Kb4; 4]> = None;
+    let mut last_merkle: Option<[Kb4; 4]> = None;
+    let (idx, shared, shared_ok) = merkle_indices(&shape.stmts);
+    if !shared_ok {
+        return None;
+    }
+    if let Some(sv) = shared {
+        v.insert(Atom::IS, Kb4::from(Kb::from_u64(sv)));
+    }
     for s in &shape.stmts {
         match s {
             Stmt::Perm { in0 } => {
@@ -490,6 +725,31 @@ fn eval(shape: &Shape, free: &Honest) -> Option<BTreeMap<Atom, Kb4>> {
                 v.insert(Atom::O(np, 0), o[0]);
                 v.insert(Atom::O(np, 1), o[1]);
                 last_full = Some(o);
+                np += 1;
+            }
+            Stmt::PermMerkle { new_start, bit, index, out } => {
+                // executor: zero state / previous MERKLE output in the rate half, sibling (private
+                // data) in the capacity half, explicit limbs on top, halves swapped when bit = 1
+                let mut st = if *new_start {
+                    [v[&Atom::P0], free.p1, k_val(), k2_val()]
+                } else {
+                    let prev = last_merkle?;
+                    let sib = sibling(np);
+                    [prev[0], prev[1], sib[0], sib[1]]
+                };
+                if *bit {
+                    st.swap(0, 2);
+                    st.swap(1, 3);
+                }
+                let o = perm_native(st);
+                if *out {
+                    v.insert(Atom::O(np, 0), o[0]);
+                    v.insert(Atom::O(np, 1), o[1]);
+                }
+                if *index == Expose::Own {
+                    v.insert(Atom::I(np), Kb4::from(Kb::from_u64(idx[np as usize])));
+                }
+                last_merkle = Some(o);
                 np += 1;
             }
             Stmt::Alu { kind, args } => {
@@ -590,8 +850,10 @@ pub struct Built {
     pub circuit: Circuit<Kb4>,
     /// atom -> expression
     pub atoms: BTreeMap<Atom, ExprId>,
-    /// the public input vector is [p0, p1] ++ extra (bits input, coefficient sets)
+    /// the public input vector is [p0, p1] ++ extra (bits input, coefficient sets, Merkle indices)
     pub extra_publics: Vec<Kb4>,
+    /// sibling digests (private data) of the chained Merkle rows
+    pub private: Vec<(NonPrimitiveOpId, [Kb4; 2])>,
 }
 
 pub fn build(shape: &Shape, h_val: Kb4) -> Result<Built, String> {
@@ -619,6 +881,28 @@ pub fn build(shape: &Shape, h_val: Kb4) -> Result<Built, String> {
             qsets.insert(set, q);
         }
     }
+    // public inputs carrying the exposed Merkle indices (honest values: `merkle_indices`)
+    let (idx_vals, shared_val, _) = merkle_indices(&shape.stmts);
+    {
+        let mut np = 0u8;
+        for s in &shape.stmts {
+            match s {
+                Stmt::Perm { .. } | Stmt::PermChained { .. } => np += 1,
+                Stmt::PermMerkle { index, .. } => {
+                    if *index == Expose::Own {
+                        at.insert(Atom::I(np), b.alloc_public_input("merkle_index"));
+                        extra_publics.push(Kb4::from(Kb::from_u64(idx_vals[np as usize])));
+                    } else if *index == Expose::Shared && !at.contains_key(&Atom::IS) {
+                        at.insert(Atom::IS, b.alloc_public_input("merkle_index_shared"));
+                        extra_publics.push(Kb4::from(Kb::from_u64(shared_val.unwrap_or(0))));
+                    }
+                    np += 1;
+                }
+                _ => {}
+            }
+        }
+    }
+    let mut private = vec![];
     let k = b.alloc_const(k_val(), "k");
     let k2 = b.alloc_const(k2_val(), "k2");
     at.insert(Atom::K, k);
@@ -680,6 +964,34 @@ pub fn build(shape: &Shape, h_val: Kb4) -> Result<Built, String> {
                 at.insert(Atom::O(np, 1), outs[1].ok_or("no out1")?);
                 np += 1;
             }
+            Stmt::PermMerkle { new_start, bit, index, out } => {
+                let bit_e = b.alloc_const(if *bit { Kb4::ONE } else { Kb4::ZERO }, "merkle_bit");
+                let (op_id, outs) = b
+                    .add_poseidon2_perm(&Poseidon2PermCall {
+                        config: Poseidon2Config::KOALA_BEAR_D4_W16,
+                        new_start: *new_start,
+                        merkle_path: true,
+                        mmcs_bit: Some(bit_e),
+                        mmcs_bit2: None,
+                        inputs: if *new_start { vec![Some(p0), Some(p1), Some(k), Some(k2)] } else { vec![None; 4] },
+                        out_ctl: vec![*out, *out],
+                        return_all_outputs: false,
+                        mmcs_index_sum: match index {
+                            Expose::No => None,
+                            Expose::Own => Some(at[&Atom::I(np)]),
+                            Expose::Shared => Some(at[&Atom::IS]),
+                        },
+                    })
+                    .map_err(|e| format!("perm: {e:?}"))?;
+                if *out {
+                    at.insert(Atom::O(np, 0), outs[0].ok_or("no out0")?);
+                    at.insert(Atom::O(np, 1), outs[1].ok_or("no out1")?);
+                }
+                if !*new_start {
+                    private.push((op_id, sibling(np)));
+                }
+                np += 1;
+            }
             Stmt::Alu { kind, args } => {
                 let x: Vec<ExprId> = args.iter().map(|a| at[a]).collect();
                 let r = match kind {
@@ -712,7 +1024,7 @@ pub fn build(shape: &Shape, h_val: Kb4) -> Result<Built, String> {
         b.connect(at[x], at[y]);
     }
     let circuit = b.build().map_err(|e| format!("build: {e:?}"))?;
-    Ok(Built { circuit, atoms: at, extra_publics })
+    Ok(Built { circuit, atoms: at, extra_publics, private })
 }
 
 // ---------------------------------------------------------------------------------------------
@@ -835,28 +1147,66 @@ pub fn ports(prep: &Prep) -> Result<Vec<Port>, String> {
             if cols.len() % 24 != 0 {
                 return Err(format!("layout: poseidon2 prep len {}", cols.len()));
             }
-            for (r, c) in cols.chunks_exact(24).enumerate() {
-                let merkle = signed(c[23]);
-                if merkle != 0 || signed(c[21]) != 0 {
-                    return Err("layout: merkle row in a non-merkle shape".into());
+            // The matrix the prover COMMITS: the preprocessed trace of the Poseidon2 AIR built from
+            // these columns (real rows, then the padding rows up to the power-of-two height). The
+            // lookups are evaluated on every row of it; the accumulator send looks at the cyclic
+            // next row, as p3's lookup argument does for `next` on the last row.
+            let mut matrix = None;
+            for (air, _) in &prep.0 {
+                if let CircuitTableAir::Dynamic(d) = air
+                    && let Some(m) = d.preprocessed_trace()
+                    && m.width() == 24
+                    && m.values.len() >= cols.len()
+                    && m.values[..cols.len()] == cols[..]
+                {
+                    matrix = Some(m);
                 }
+            }
+            let Some(m) = matrix else {
+                return Err("layout: no dynamic AIR whose preprocessed trace starts with the committed Poseidon2 columns".into());
+            };
+            let h = m.height();
+            if !h.is_power_of_two() || h < cols.len() / 24 {
+                return Err(format!("layout: poseidon2 matrix height {h} for {} rows", cols.len() / 24));
+            }
+            let flag = |x: Kb, what: &str| -> Result<i64, String> {
+                let v = signed(x);
+                if v != 0 && v != 1 {
+                    return Err(format!("layout: {what} {v}"));
+                }
+                Ok(v)
+            };
+            let rows: Vec<Vec<Kb>> = (0..h).map(|r| m.row_slice(r).unwrap().to_vec()).collect();
+            for (r, c) in rows.iter().enumerate() {
+                let merkle = flag(c[23], "merkle_path")?;
+                let mmf = flag(c[21], "mmcs_merkle_flag")?;
+                flag(c[22], "new_start")?;
                 for l in 0..4 {
-                    let in_ctl = signed(c[4 * l + 1]);
-                    if in_ctl != 0 && in_ctl != 1 {
-                        return Err(format!("layout: in_ctl {in_ctl}"));
-                    }
-                    if in_ctl == 1 {
-                        out.push(Port { role: "p2.in", kind: None, row: r, slot: slot(c[4 * l])?, mult: -in_ctl, relation_port: true });
+                    let in_ctl = flag(c[4 * l + 1], "in_ctl")?;
+                    // input-limb send: -(in_ctl)(1 - merkle_path)
+                    let mult = -(in_ctl * (1 - merkle));
+                    if mult != 0 {
+                        out.push(Port { role: "p2.in", kind: None, row: r, slot: slot(c[4 * l])?, mult, relation_port: true });
+                    } else if in_ctl == 1 {
+                        // explicit limb of a Merkle row: never sent (root cause R4, known under C04);
+                        // kept as a multiplicity-0 mention so that it shows in details / signatures
+                        out.push(Port { role: "p2.in.merkle_unread", kind: None, row: r, slot: slot(c[4 * l])?, mult: 0, relation_port: false });
                     }
                 }
                 for l in 0..2 {
-                    let m = signed(c[16 + 2 * l + 1]);
+                    let mo = signed(c[16 + 2 * l + 1]);
                     let idx = c[16 + 2 * l];
                     // an exposed output always carries an index; out_ctl 0 with index 0 = not exposed
-                    if m == 0 && idx == Kb::ZERO {
+                    if mo == 0 && idx == Kb::ZERO {
                         continue;
                     }
-                    out.push(Port { role: "p2.out", kind: None, row: r, slot: slot(idx)?, mult: m, relation_port: true });
+                    out.push(Port { role: "p2.out", kind: None, row: r, slot: slot(idx)?, mult: mo, relation_port: true });
+                }
+                // MMCS accumulator send: -(mmcs_merkle_flag(local) * new_start(next)), next cyclic
+                let next_ns = flag(rows[(r + 1) % h][22], "new_start")?;
+                if mmf == 1 {
+                    let mult = -(mmf * next_ns);
+                    out.push(Port { role: if mult != 0 { "p2.mmcs" } else { "p2.mmcs.silent" }, kind: None, row: r, slot: slot(c[20])?, mult, relation_port: mult != 0 });
                 }
             }
         } else if name == "recompose" {
@@ -897,7 +1247,7 @@ pub fn slot_sources(built: &Built) -> BTreeMap<u64, BTreeSet<char>> {
     let mut m: BTreeMap<u64, BTreeSet<char>> = BTreeMap::new();
     for (a, e) in &built.atoms {
         let k = match a {
-            Atom::P0 | Atom::P1 => 'U',
+            Atom::P0 | Atom::P1 | Atom::I(_) | Atom::IS => 'U',
             Atom::K => 'C',
             Atom::H => 'H',
             Atom::O(..) => 'O',
@@ -1058,6 +1408,11 @@ pub fn honest_prove_verify(built: &Built, free: &Honest) -> Honesty {
     if let Err(e) = r.set_public_inputs(&pubs) {
         return Honesty::RunRejected(format!("{e:?}"));
     }
+    for (op_id, sib) in &built.private {
+        if let Err(e) = r.set_private_data(*op_id, NpoPrivateData::new(Poseidon2PermPrivateData { sibling: sib.to_vec() })) {
+            return Honesty::RunRejected(format!("{e:?}"));
+        }
+    }
     let traces = match r.run() {
         Ok(t) => t,
         Err(e) => return Honesty::RunRejected(format!("{e:?}")),
@@ -1111,6 +1466,8 @@ pub struct ShapeResult {
     pub findings: Vec<Finding>,
     pub signature: String,
     pub op_list: String,
+    /// explicit input limbs of Merkle rows (in_ctl = 1, never sent on the bus)
+    pub merkle_unread_inputs: usize,
 }
 
 /// Census of one shape. `Ok(None)` = the builder / preparation refused the shape.
@@ -1145,7 +1502,14 @@ pub fn census(shape: &Shape, h: Option<&Histo>) -> Option<ShapeResult> {
         Err(e) => vpcore::machinery_error(&format!("C09 npo census cannot read preprocessed layout of `{}`: {e}", shape.show())),
     };
     let findings = audit(&ps, &slot_sources(&built));
-    Some(ShapeResult { findings, signature: signature(&ps), op_list })
+    // Merkle shapes: the row pattern of the Poseidon2 table (positions of leaf / chained / exposing
+    // rows, hence padding vs wrap-around) is part of the proof-selection signature
+    let mut sig = signature(&ps);
+    if let Some(pat) = merkle_pattern(&shape.stmts) {
+        sig = format!("{sig}#merkle:{pat}");
+    }
+    let merkle_unread_inputs = ps.iter().filter(|p| p.role == "p2.in.merkle_unread").count();
+    Some(ShapeResult { findings, signature: sig, op_list, merkle_unread_inputs })
 }
 
 /// Honest run of one shape with solved inputs. `None` = no satisfying assignment found.
@@ -1169,6 +1533,11 @@ pub fn run(ctx: &Ctx, report: &Report, histo: &Histo, share: f64) -> Value {
     let with_findings = AtomicU64::new(0);
     let hint_perm_alias = AtomicU64::new(0);
     let samples: Mutex<Vec<String>> = Mutex::new(vec![]);
+    // Merkle shapes per class: [distinct op lists, census findings, honest proofs, accepted]
+    let merkle_classes: Mutex<BTreeMap<String, [u64; 4]>> = Mutex::new(BTreeMap::new());
+    let merkle_shapes = AtomicU64::new(0);
+    let merkle_unread = AtomicU64::new(0);
+    let merkle_samples: Mutex<Vec<String>> = Mutex::new(vec![]);
     let mut fam_reports = vec![];
     let mut all_exhaustive = true;
     for fam in families(ctx.quick()) {
@@ -1202,6 +1571,19 @@ pub fn run(ctx: &Ctx, report: &Report, histo: &Histo, share: f64) -> Value {
                 fam_distinct.fetch_add(1, Ordering::Relaxed);
                 if shape.connects.iter().any(|(x, y)| matches!((x, y), (Atom::H, Atom::O(..)) | (Atom::O(..), Atom::H))) {
                     hint_perm_alias.fetch_add(1, Ordering::Relaxed);
+                }
+                let mclass = merkle_class(&shape.stmts);
+                if let Some(c) = &mclass {
+                    merkle_shapes.fetch_add(1, Ordering::Relaxed);
+                    if res.merkle_unread_inputs > 0 {
+                        merkle_unread.fetch_add(1, Ordering::Relaxed);
+                    }
+                    let mut g = merkle_classes.lock().unwrap();
+                    let e = g.entry(c.clone()).or_insert([0; 4]);
+                    e[0] += 1;
+                    if !res.findings.is_empty() {
+                        e[1] += 1;
+                    }
                 }
                 histo.add(if res.findings.is_empty() { "npo:balanced" } else { "npo:census_finding" });
                 if !res.findings.is_empty() {
@@ -1256,11 +1638,46 @@ pub fn run(ctx: &Ctx, report: &Report, histo: &Histo, share: f64) -> Value {
                             proofs.fetch_add(1, Ordering::Relaxed);
                             fam_proofs.fetch_add(1, Ordering::Relaxed);
                             let predicted_unbalanced = res.findings.iter().any(|f| f.unbalanced);
+                            if let Some(c) = &mclass {
+                                let mut g = merkle_classes.lock().unwrap();
+                                let e = g.entry(c.clone()).or_insert([0; 4]);
+                                e[2] += 1;
+                                if o == Honesty::Accepted {
+                                    e[3] += 1;
+                                }
+                                let mut ms = merkle_samples.lock().unwrap();
+                                if ms.len() < 6 && o == Honesty::Accepted && shape.stmts.len() >= 3 {
+                                    ms.push(shape.show());
+                                }
+                            }
+                            // Merkle shapes: an honest execution the runner accepts must prove and
+                            // verify with a balanced bus. A failure the census did not predict is a
+                            // violation of its own, keyed by the shape class (a predicted one is
+                            // already reported under the census key).
+                            if let Some(c) = &mclass
+                                && !predicted_unbalanced
+                                && !matches!(o, Honesty::Accepted | Honesty::RunRejected(_))
+                            {
+                                let what = match &o {
+                                    Honesty::LookupPanic(m) if m.contains("Lookup mismatch") => "bus_unbalanced",
+                                    Honesty::LookupPanic(_) => "prover_panic",
+                                    Honesty::ProveErr(_) => "prove_err",
+                                    _ => "verify_err",
+                                };
+                                histo.add(&format!("npo:merkle:honest:{what}"));
+                                report.violation_sized(
+                                    format!("npo:merkle:honest_run_fails:{what}|{c}"),
+                                    format!("[{c}] {} — census balanced, the runner accepts the honest inputs, but prove (p3 check_lookups on) + verify fails: {}", shape.show(), format!("{o:?}").chars().take(300).collect::<String>()),
+                                    json!({"shape": shape, "class": c}),
+                                    shape.show().len(),
+                                );
+                            }
                             match &o {
                                 Honesty::Accepted => {
                                     accepted.fetch_add(1, Ordering::Relaxed);
                                     histo.add("npo:honest:accepted");
                                 }
+                                _ if mclass.is_some() && !predicted_unbalanced && !matches!(o, Honesty::RunRejected(_)) => {}
                                 Honesty::LookupPanic(m) if m.contains("Lookup mismatch") && !predicted_unbalanced => {
                                     histo.add("npo:honest:lookup_mismatch_unpredicted");
                                     report.violation(
@@ -1290,7 +1707,7 @@ pub fn run(ctx: &Ctx, report: &Report, histo: &Histo, share: f64) -> Value {
         fam_reports.push(json!({"family": fam.name, "bounds": fam, "statement_sequences": seqs.len(), "shapes": fam_shapes.load(Ordering::Relaxed), "distinct_op_lists": fam_distinct.load(Ordering::Relaxed), "honest_proofs": fam_proofs.load(Ordering::Relaxed), "exhaustive": ex, "wall_s": ctx.elapsed_s() - t0}));
     }
     json!({
-        "space": "builder shapes with 1-2 Poseidon2 D4/W16 perm calls (new_start / chained), 0-1 decompose_ext_to_base_coeffs (plain / coeff-ctl), 0-1 decompose_to_bits, 1-3 ALU ops (add/sub/mul/div/mul_add), 0-2 connects, every dependency-respecting emission order; KoalaBear D=4, Poseidon2 + recompose + recompose/coeff tables",
+        "space": "builder shapes with 1-2 Poseidon2 D4/W16 sponge perm calls (new_start / chained) or 1-4 Poseidon2 rows drawn from sponge new_start / Merkle leaf / chained Merkle rows (index accumulator exposed or not), 0-1 decompose_ext_to_base_coeffs (plain / coeff-ctl), 0-1 decompose_to_bits, 1-3 ALU ops (add/sub/mul/div/mul_add), 0-2 connects, every dependency-respecting emission order; KoalaBear D=4, Poseidon2 + recompose + recompose/coeff tables",
         "families": fam_reports,
         "shapes": shapes.load(Ordering::Relaxed),
         "distinct_op_lists": distinct.load(Ordering::Relaxed),
@@ -1300,6 +1717,13 @@ pub fn run(ctx: &Ctx, report: &Report, histo: &Histo, share: f64) -> Value {
         "honest_prove_verify_runs": proofs.load(Ordering::Relaxed),
         "honest_accepted": accepted.load(Ordering::Relaxed),
         "distinct_op_lists_without_satisfying_inputs": unsat.load(Ordering::Relaxed),
+        "merkle_mode": {
+            "grammar": "PermMerkle{new_start (leaf row, limbs p0,p1,k,k2 explicit) | chained after the previous Merkle row (sibling = private data), direction bit const 0/1, mmcs_index_sum not exposed / own public input / shared public input, rate outputs exposed or not}; Poseidon2 tables of 1..4 rows mixing sponge new_start rows, leaf rows and chained Merkle rows",
+            "distinct_op_lists": merkle_shapes.load(Ordering::Relaxed),
+            "distinct_op_lists_with_explicit_merkle_inputs_off_the_bus": merkle_unread.load(Ordering::Relaxed),
+            "classes": merkle_classes.lock().unwrap().iter().map(|(k, v)| json!({"class": k, "distinct_op_lists": v[0], "with_census_findings": v[1], "honest_proofs": v[2], "honest_accepted": v[3]})).collect::<Vec<_>>(),
+            "samples_proved": *merkle_samples.lock().unwrap(),
+        },
         "exhaustive": all_exhaustive,
         "samples": *samples.lock().unwrap(),
         "wall_s": ctx.elapsed_s() - t_start,
